@@ -490,12 +490,44 @@ theorem loop_kind_id (par : Option NsMgr) (isColl : Bool) : ∀ (as : List AttrA
 structure WfRecs (h : Heap) : Prop where
   elemId : ∀ r, r < h.recs.size → (h.recCell r).r.kind.isElement = true → (h.recCell r).r.id.isSome = true
   inRange : ∀ c, ∀ r ∈ (h.cont c).records, r < h.recs.size
+  idxIn : ∀ c, ∀ e ∈ (h.cont c).idMap, ∀ r ∈ e.2, r ∈ (h.cont c).records
 
 theorem wfRecs_empty : WfRecs Heap.empty := by
-  refine ⟨fun r hr => by simp [Heap.empty] at hr, fun c r hr => ?_⟩
-  have : (Heap.empty.cont c).records = [] := by simp [Heap.empty, Heap.cont]; rfl
-  rw [this] at hr
-  cases hr
+  refine ⟨fun r hr => by simp [Heap.empty] at hr, fun c r hr => ?_, fun c e he => ?_⟩
+  · have : (Heap.empty.cont c).records = [] := by simp [Heap.empty, Heap.cont]; rfl
+    rw [this] at hr
+    cases hr
+  · have : (Heap.empty.cont c).idMap = [] := by simp [Heap.empty, Heap.cont]; rfl
+    rw [this] at he
+    cases he
+
+theorem mem_idMapAppend (im : List (QName × List Nat)) (q : QName) (r : Nat) :
+    ∀ e ∈ idMapAppend im q r, ∀ x ∈ e.2, x = r ∨ ∃ e' ∈ im, x ∈ e'.2 := by
+  induction im with
+  | nil =>
+    intro e he x hx
+    simp only [idMapAppend, List.mem_singleton] at he
+    subst he
+    simp only [List.mem_singleton] at hx
+    exact Or.inl hx
+  | cons hd tl ih =>
+    obtain ⟨k, rs⟩ := hd
+    intro e he x hx
+    by_cases hk : k.same q = true
+    · simp only [idMapAppend, hk, if_true, List.mem_cons] at he
+      rcases he with rfl | he
+      · simp only [List.mem_append, List.mem_singleton] at hx
+        rcases hx with h1 | h1
+        · exact Or.inr ⟨(k, rs), List.mem_cons_self, h1⟩
+        · exact Or.inl h1
+      · exact Or.inr ⟨e, List.mem_cons_of_mem _ he, hx⟩
+    · have hk' : k.same q = false := by simpa using hk
+      simp only [idMapAppend, hk', Bool.false_eq_true, if_false, List.mem_cons] at he
+      rcases he with rfl | he
+      · exact Or.inr ⟨(k, rs), List.mem_cons_self, hx⟩
+      · rcases ih e he x hx with h1 | ⟨e', he', hx'⟩
+        · exact Or.inl h1
+        · exact Or.inr ⟨e', List.mem_cons_of_mem _ he', hx'⟩
 
 theorem cont_setCont_oob (h : Heap) (c c' : Nat) (k : Cont) (hc : ¬ c < h.conts.size) : (h.setCont c k).cont c' = h.cont c' := by
   simp only [setCont, cont, Array.getD_eq_getD_getElem?, Array.getElem?_setIfInBounds]
@@ -503,7 +535,7 @@ theorem cont_setCont_oob (h : Heap) (c c' : Nat) (k : Cont) (hc : ¬ c < h.conts
   · next e => subst e; simp [hc]
   · rfl
 
-theorem wfRecs_setMgr {h : Heap} (hw : WfRecs h) (c : Nat) (m : NsMgr) : WfRecs (h.setMgr c m) := ⟨hw.elemId, hw.inRange⟩
+theorem wfRecs_setMgr {h : Heap} (hw : WfRecs h) (c : Nat) (m : NsMgr) : WfRecs (h.setMgr c m) := ⟨hw.elemId, hw.inRange, hw.idxIn⟩
 
 theorem wfRecs_setRec {h : Heap} (hw : WfRecs h) (r : Nat) (rc : Record)
     (hk : rc.kind = (h.recCell r).r.kind) (hi : rc.id = (h.recCell r).r.id) : WfRecs (h.setRec r rc) := by
@@ -522,6 +554,7 @@ theorem wfRecs_setRec {h : Heap} (hw : WfRecs h) (r : Nat) (rc : Record)
   · intro c r' hr'
     rw [hsz]
     exact hw.inRange c r' hr'
+  · exact hw.idxIn
 
 theorem wfRecs_allocCont {h : Heap} (hw : WfRecs h) (isDoc : Bool) (id : Option QName) (nss : List Ns) (doc : Option Nat) :
     WfRecs (h.allocCont isDoc id nss doc).1 := by
@@ -532,6 +565,14 @@ theorem wfRecs_allocCont {h : Heap} (hw : WfRecs h) (isDoc : Bool) (id : Option 
     split at hr
     · simp at hr
     · exact hw.inRange c r (by simpa [cont, Array.getD_eq_getD_getElem?] using hr)
+  · intro c e he r hr
+    simp only [allocCont, allocMgr, cont, Array.getD_eq_getD_getElem?, Array.getElem?_push] at he ⊢
+    split at he
+    · simp at he
+    · next hne =>
+      simp only [hne, if_false]
+      have := hw.idxIn c e (by simpa [cont, Array.getD_eq_getD_getElem?] using he) r hr
+      simpa [cont, Array.getD_eq_getD_getElem?] using this
 
 theorem wfRecs_validName {h : Heap} (hw : WfRecs h) (c : Nat) (x : NameArg) : WfRecs (h.validName c x).1 := by
   unfold Heap.validName
@@ -553,7 +594,7 @@ theorem wfRecs_mkRecord {h : Heap} (hw : WfRecs h) (c : Nat) (k : RecKind) (id :
     | some err => exact ⟨wfRecs_setMgr hw c m', fun r hr => by cases hr⟩
     | none =>
       simp only
-      refine ⟨⟨?_, ?_⟩, fun r hr => ?_⟩
+      refine ⟨⟨?_, ?_, hw.idxIn⟩, fun r hr => ?_⟩
       · intro r hr hel
         simp only [setMgr, Array.size_push] at hr
         by_cases e : r < h.recs.size
@@ -592,6 +633,25 @@ theorem wfRecs_addRecordRaw {h : Heap} (hw : WfRecs h) (c r : Nat) (hr : r < h.r
         exact hw.inRange c' r' hr'
     · rw [cont_setCont_ne h c c' _ e] at hr'
       exact hw.inRange c' r' hr'
+  · intro c' e he x hx
+    unfold addRecordRaw at he ⊢
+    dsimp only at he ⊢
+    by_cases ec : c' = c
+    · subst ec
+      by_cases hc : c' < h.conts.size
+      · rw [cont_setCont_self h c' _ hc] at he ⊢
+        simp only [List.mem_append, List.mem_singleton] at he ⊢
+        cases hid : (h.recCell r).r.id with
+        | none => rw [hid] at he; exact Or.inl (hw.idxIn c' e he x hx)
+        | some q =>
+          rw [hid] at he
+          rcases mem_idMapAppend _ q r e he x hx with h1 | ⟨e', he', hx'⟩
+          · exact Or.inr h1
+          · exact Or.inl (hw.idxIn c' e' he' x hx')
+      · rw [cont_setCont_oob h c' c' _ hc] at he ⊢
+        exact hw.idxIn c' e he x hx
+    · rw [cont_setCont_ne h c c' _ ec] at he ⊢
+      exact hw.idxIn c' e he x hx
 
 theorem wfRecs_newRecord {h : Heap} (hw : WfRecs h) (c : Nat) (k : RecKind) (idArg : NameArg) (attrs : List AttrArg) :
     WfRecs (h.newRecord c k idArg attrs).1 := by
@@ -657,18 +717,28 @@ theorem wfRecs_setTime {h : Heap} (hw : WfRecs h) (r : Nat) (st en : Option Valu
       have n2 := step_ok _ "endTime" en rc2 h2
       exact wfRecs_setRec hw r rc2 (n2.1.trans n1.1) (n2.2.trans n1.2)
 
-theorem wfRecs_setCont_sameRecords {h : Heap} (hw : WfRecs h) (c : Nat) (k : Cont) (hk : k.records = (h.cont c).records) :
-    WfRecs (h.setCont c k) := by
-  refine ⟨hw.elemId, fun c' r hr => ?_⟩
-  by_cases e : c' = c
-  · subst e
-    by_cases hc : c' < h.conts.size
-    · rw [cont_setCont_self h c' _ hc, hk] at hr
+theorem wfRecs_setCont_sameRecords {h : Heap} (hw : WfRecs h) (c : Nat) (k : Cont) (hk : k.records = (h.cont c).records)
+    (hk2 : k.idMap = (h.cont c).idMap) : WfRecs (h.setCont c k) := by
+  refine ⟨hw.elemId, fun c' r hr => ?_, fun c' e he x hx => ?_⟩
+  · by_cases e : c' = c
+    · subst e
+      by_cases hc : c' < h.conts.size
+      · rw [cont_setCont_self h c' _ hc, hk] at hr
+        exact hw.inRange c' r hr
+      · rw [cont_setCont_oob h c' c' _ hc] at hr
+        exact hw.inRange c' r hr
+    · rw [cont_setCont_ne h c c' _ e] at hr
       exact hw.inRange c' r hr
-    · rw [cont_setCont_oob h c' c' _ hc] at hr
-      exact hw.inRange c' r hr
-  · rw [cont_setCont_ne h c c' _ e] at hr
-    exact hw.inRange c' r hr
+  · by_cases ec : c' = c
+    · subst ec
+      by_cases hc : c' < h.conts.size
+      · rw [cont_setCont_self h c' _ hc] at he ⊢
+        rw [hk2] at he; rw [hk]
+        exact hw.idxIn c' e he x hx
+      · rw [cont_setCont_oob h c' c' _ hc] at he ⊢
+        exact hw.idxIn c' e he x hx
+    · rw [cont_setCont_ne h c c' _ ec] at he ⊢
+      exact hw.idxIn c' e he x hx
 
 theorem wfRecs_bundle {h : Heap} (hw : WfRecs h) (d : Nat) (idArg : NameArg) : WfRecs (h.bundle d idArg).1 := by
   unfold Heap.bundle
@@ -688,7 +758,7 @@ theorem wfRecs_bundle {h : Heap} (hw : WfRecs h) (d : Nat) (idArg : NameArg) : W
         generalize hh.allocCont false (some q) [] (some d) = al at h2
         obtain ⟨h3, nb⟩ := al
         simp only at h2 ⊢
-        exact wfRecs_setCont_sameRecords h2 d _ rfl
+        exact wfRecs_setCont_sameRecords h2 d _ rfl rfl
 
 theorem hstep_wf {h : Heap} (hw : WfRecs h) (op : HOp) : WfRecs (hstep h op) := by
   cases op with
@@ -715,6 +785,19 @@ theorem c09_reachable_wf (ops : List HOp) (hops : ∀ op ∈ ops, op.ok ∧ op.a
     refine ⟨a.1, fun c r hr => ?_⟩
     have hlt := w.inRange c r hr
     exact ⟨hlt, ⟨stored_of_normal_extra (a.2 r) (b r), w.elemId r hlt⟩⟩
+  induction ops with
+  | nil => intro h hn he hw; exact ⟨hn, he, hw⟩
+  | cons op rest ih =>
+    intro h hn he hw
+    have ho := hops op List.mem_cons_self
+    exact ih (fun o hm => hops o (List.mem_cons_of_mem _ hm)) _ (hstep_normal hn op ho.1) (hstep_extra hn he op ho.1 ho.2) (hstep_wf hw op)
+
+/-- the three invariants themselves, for use by other modules -/
+theorem reachable_invariants (ops : List HOp) (hops : ∀ op ∈ ops, op.ok ∧ op.argsOk) :
+    HeapNormal (ops.foldl hstep Heap.empty) ∧ HeapExtra (ops.foldl hstep Heap.empty) ∧ WfRecs (ops.foldl hstep Heap.empty) := by
+  suffices ∀ h, HeapNormal h → HeapExtra h → WfRecs h →
+      HeapNormal (ops.foldl hstep h) ∧ HeapExtra (ops.foldl hstep h) ∧ WfRecs (ops.foldl hstep h) from
+    this _ heapNormal_empty heapExtra_empty wfRecs_empty
   induction ops with
   | nil => intro h hn he hw; exact ⟨hn, he, hw⟩
   | cons op rest ih =>
